@@ -25,6 +25,7 @@ SCOPE = [
     ("debugfs/journal.c", ["ext2fs_journal_load", "ext2fs_get_journal"]),
     ("lib/ext2fs/extent.c", ["ext2fs_extent_header_verify", "ext2fs_extent_get", "ext2fs_extent_open2"]),
     ("lib/ext2fs/dirblock.c", None),
+    ("lib/ext2fs/rw_bitmaps.c", ["read_bitmaps_range_prepare", "read_bitmaps_range_start"]),
     ("lib/ext2fs/dir_iterate.c", ["ext2fs_process_dir_block", "ext2fs_validate_entry", "ext2fs_inline_data_dir_iterate"]),
     ("lib/ext2fs/ext_attr.c", ["read_xattrs_from_buffer", "ext2fs_xattrs_read_inode", "ext2fs_ext_attr_block_rehash"]),
     ("lib/ext2fs/inline_data.c", None),
